@@ -1,4 +1,5 @@
 """C01 — TFIM sampler and the quantum thermal state (partial by nature; see QmcProps/C01.lean)."""
+from checks import pure_fns
 LEAN_TARGETS = ["QmcProps.C01", "drv_c01", "QmcProps.C08", "drv_c08", "QmcProps.C09", "drv_c09", "QmcProofs.KernelInvariance"]
 BINS = ["c01", "c08", "c09"]
 
@@ -43,6 +44,7 @@ RULE = ("ham: random graphs 2..6 spins, 1..8 edges (multi-edges, both signs, une
 
 
 def main(ck):
+    pure_fns.run(ck)   # source->Lean translation of pure functions, re-proved equal to the hand model
     if ck.lake_build(LEAN_TARGETS):
         ck.audit("QmcProps.C01", ["Qmc.C01." + t for t in THEOREMS])
         ck.prop_audit_extra = True
